@@ -150,7 +150,7 @@ class Case:
     def simple(desc, xs, meta=None):
         return Case(desc, [("u", 0, x if isinstance(x, str) else Fraction(x)) for x in xs], meta)
     def inputs(self):
-        return [o[2] for o in self.ops if o[0] == "u" and o[1] == 0]
+        return [o[2] for o in self.ops if o[0] in ("u", "v") and o[1] == 0]
     def line(self, cid, mode):
         toks = []
         for o in self.ops:
@@ -165,7 +165,7 @@ class Case:
         """observations of the updates of instance 0, as None / Fraction / 'E'"""
         r = []
         for o, b in zip(self.ops, self.obs):
-            if o[0] == "u" and o[1] == 0:
+            if o[0] in ("u", "v") and o[1] == 0:
                 r.append(None if b.kind == "N" else b.val if b.kind == "S" else b.kind)
         return r
     def to_json(self):
